@@ -34,7 +34,8 @@ PROBES = ["fault_free_runs", "files_structurally_compared", "adjusted_rules_mask
           "crash_mid_write", "fault:eacces-out", "fault:enospc-out", "fault:eacces-report", "fault:enospc-report",
           "fault:eacces-in", "fault:eio-in", "dir_invocation", "file_invocation", "cwd_is_tree", "bystanders_checked",
           "feat:opaque-atrules", "feat:odd-strings", "feat:vendor-hacks", "feat:star-hack", "feat:crlf", "feat:bom", "feat:cdo-cdc",
-          "feat:non-ascii", "feat:nesting", "feat:vars", "glue_comment_needed", "report_written", "stale_output_overwritten"]
+          "feat:non-ascii", "feat:nesting", "feat:vars", "glue_comment_needed", "report_written", "stale_output_overwritten",
+          "cm_named_stylesheet_as_file_argument", "cm_named_stylesheet_as_bystander"]
 
 C09_FEATURES = gen.ALL_FEATURES
 _NAMES = ("a.css", "b.css", "main.css", "thème.css", "my style.css", "reset.min.css")
@@ -81,7 +82,20 @@ def generate(rseed, tier, idx):
     if g.random() < 0.25:
         tree[g.choice(inputs)[:-4] + "_cm.css"] = {"k": "text", "text": ".old{color:#000", "stale": True}
     pre_report = g.random() < 0.25
-    if g.random() < 0.6 or nfiles > 1:
+    cm_named = None
+    if g.random() < 0.3:
+        # a real stylesheet whose name ends in _cm.css (e.g. the result of an earlier pass): a bystander in directory
+        # runs, a legitimate input when named explicitly
+        cm_named = g.choice(_DIRS) + g.choice(("theme_cm.css", "a_cm.css", "x_cm.css"))
+        if cm_named not in tree:
+            feats = gen.draw_features(g, feats_pool, 0.3)
+            ast = gen.gen_sheet(g, feats, settings, max_rules=3, tag="K")
+            tree[cm_named] = {"k": "css", "ast": ast, "text": gen.render(ast), "feats": feats, "cmname": True}
+        else:
+            cm_named = None
+    if cm_named and g.random() < 0.5:
+        inv = {"form": "file", "target": cm_named}
+    elif g.random() < 0.6 or nfiles > 1:
         inv = {"form": "dir", "target": "."}
     else:
         inv = {"form": "file", "target": g.choice(inputs)}
@@ -216,6 +230,8 @@ def execute(trace):
         bump("dir_invocation" if trace["inv"]["form"] == "dir" else "file_invocation")
         if cwd_rel != "cwd":
             bump("cwd_is_tree")
+        if any(v.get("cmname") for v in trace["tree"].values()):
+            bump("cm_named_stylesheet_as_file_argument" if trace["inv"]["target"].endswith("_cm.css") else "cm_named_stylesheet_as_bystander")
         bump("bystanders_checked", len([k for k in before if k not in allowed["out"] and k not in allowed["inputs"]]))
         if res["exit"] != 0:
             V("cli-raised", "free", exit=res["exit"], exc=res.get("exc"))
